@@ -778,8 +778,10 @@ def binary_case_raw(ctx, rep, case):
                 for cells in decoded:
                     txt = "".join(c for c, _ in cells)
                     j = txt.find(word)
-                    if j >= 0 and any(r[1] == want[k] for _, r in cells[j:j + len(word)]):
-                        hit = True
+                    while j >= 0 and not hit:       # every occurrence in the row (side-by-side: both panels)
+                        hit = any(r[1] == want[k] for _, r in cells[j:j + len(word)])
+                        j = txt.find(word, j + 1)
+                    if hit:
                         break
                 if not hit:
                     report(rep, "raw-lines:colouring-lost", "a raw-styled changed line did not keep its input colour",
@@ -792,7 +794,9 @@ MOVED_MODES = [[], ["--side-by-side", "--width", "120"], ["--line-numbers"], ["-
                # a raw style keeps the input colours whatever --inspect-raw-lines says
                ["--minus-style", "raw", "--plus-style", "raw", "--inspect-raw-lines", "false"],
                ["--minus-style", "raw", "--plus-style", "raw", "--zero-style", "raw"]]
-MAP = "bold purple => red \"#330000\", bold cyan => blue \"#003300\""
+# replacement colours that are exact entries of the 256-colour cube (52 = #5f0000, 22 = #005f00), so the
+# expected rendition is known at both colour depths without re-implementing the quantisation
+MAP = "bold purple => red \"#5f0000\", bold cyan => blue \"#005f00\""
 
 
 def binary_case_moved(ctx, rep, case):
@@ -807,15 +811,16 @@ def binary_case_moved(ctx, rep, case):
     other = "+" if kind == "-" else "-"
     lines = ["diff --git a/m.txt b/m.txt", "index 1..2 100644", "--- a/m.txt", "+++ b/m.txt", "@@ -1,3 +1,3 @@",
              " ctx", ml, sgr("31" if other == "-" else "32") + other + "unrelated" + sgr(""), " ctx2"]
-    args = ["--no-gitconfig"] + mode + (["--map-styles", MAP] if case.get("map") else [])
+    args = ["--no-gitconfig"] + mode + (["--map-styles", MAP, "--true-color", case.get("depth", "always")] if case.get("map") else [])
     rc, out, err = ctx.run_delta(args, enc_lines(lines))
     want = apply_sgr(Rend(), parse_params(params))
     if case.get("map"):
         # the two mapped styles (equality key: bold + magenta/cyan, named or palette 5/6)
+        deep = case.get("depth", "always") == "always"
         if want.key() == ((True,) + (False,) * 7, ("p", 5), None):
-            want = Rend(); want.fg = ("p", 1); want.bg = ("r", 0x33, 0, 0)
+            want = Rend(); want.fg = ("p", 1); want.bg = ("r", 0x5f, 0, 0) if deep else ("p", 52)
         elif want.key() == ((True,) + (False,) * 7, ("p", 6), None):
-            want = Rend(); want.fg = ("p", 4); want.bg = ("r", 0, 0x33, 0)
+            want = Rend(); want.fg = ("p", 4); want.bg = ("r", 0, 0x5f, 0) if deep else ("p", 22)
     rep.case(key=("moved", params, kind, form, tuple(mode), bool(case.get("map"))), nontrivial=True,
              sample=dict(op="binary moved-line colours", params=params, line=ml, mode=mode))
     rep.count("binary:moved")
@@ -926,7 +931,8 @@ def binary_cases(ctx):
             cases.append(("moved", dict(params=p, kind=kind, form=form, mode=rng.choice(MOVED_MODES))))
     for p in ["1;35", "1;36", "1;38;5;5", "35;1", "1;38;5;6", "1;34", "35", "1;35;4"]:
         for kind in "-+":
-            cases.append(("moved", dict(params=p, kind=kind, form="per-line", mode=[], map=True)))
+            for depth in ("always", "never"):
+                cases.append(("moved", dict(params=p, kind=kind, form="per-line", mode=[], map=True, depth=depth)))
     # the decision of maybe_raw_line under every option combination
     for p in ["1;35", "1;36", "7", "38;5;208", "1;31", "32;4"] + [moved_params(rng) for _ in range(ctx.n(6, 200))]:
         for kind in "-+":
